@@ -59,7 +59,7 @@ def illegal_variants(name, shapes, args, rng):
 
 def gen_cases(tier, seed):
     rng = gen.rng_for(seed, "c05", tier)
-    budget = {"quick": 120, "thorough": 4000}[tier]
+    budget = {"quick": 300, "thorough": 4000}[tier]
     cases = []
     for name, op in OPS.items():
         g = catalog.grid(name, tier, rng)
